@@ -2,12 +2,11 @@
 C09 — service guarantee, for the strategy `balanced_market`
 (model: Model/StratBalancedMarket.lean, tied to the real code by harness/s_balanced_market.py).
 
-The guarantee itself does not hold for the unchanged code: besides the known findings F2 (curves that
-vary between SoC and desired SoC) there is the situation exhibited below — the present timestep is
-cheap (price ≤ PRICE_THRESHOLD), is planned with full power, and is nevertheless not used because it
-is not the *first* entry of its price group (`if start_idx == 0 and power[0]`).  What is proved is the
-repaired counting of the remaining timesteps (finding M1): the step in which the vehicle leaves is
-part of the planning window.
+The guarantee itself does not hold in general: known findings F2 (curves that vary between SoC and desired
+SoC; mechanism: planning in price order, see the time-order theorem).  Defect BM1 — a cheap present
+timestep that is planned with full power was not used when it was not the *first* entry of its price
+group (`if start_idx == 0 and power[0]`) — is repaired (fixes/BM1.diff) and stated below as a theorem
+and a regression example.  Also proved: the repaired counting of the remaining timesteps (M1).
 -/
 import SpiceEv.Proofs.StratBalancedMarket
 import SpiceEv.Proofs.StratBalancedMarketToy
@@ -47,18 +46,45 @@ example : sortedTs [(⟨1, 1, some (.fixed (1/10))⟩ : TS ℚ), ⟨1, 1, some (
 example : sliceTo [10, 11, 12, 13, 14] (ceilDiv (31 * 60000000 - 0) (15 * 60000000)) = [10, 11, 12] := by
   decide +kernel
 
-/-- **Witness (suspected defect, replayed on the real code in notes/S_BALANCED_MARKET.md).**
-Price −0.05 now, −0.10 in the next step, 0.50 afterwards, threshold 0; the vehicle (SoC 0.1, desired
-0.8, 5 kW, 10 kWh) leaves after two steps and needs both of them (0.1 + 0.5 + 0.5 ≥ 0.8; one step gives
-0.6).  The present step is cheap and is planned at full power, but the price group is headed by the
-next (cheaper) step, so nothing is charged now: no command, SoC unchanged — the desired SoC can no
-longer be reached. -/
+/-- **A planned present step is used (repair BM1).** If the price group being planned contains the
+current timestep (index 0) — as its first member or not: prices ≤ PRICE_THRESHOLD are merged into one
+group headed by the cheapest — and the power planned for it is not zero, that pass of the planning loop
+books the real charge `load(target_power = power[0])` on connector, station and commands.  (The pinned
+code tested `start_idx == 0` and left a cheap, planned present step unused: fixes/BM1.diff.) -/
+theorem C09_balanced_market_planned_present_is_charged {α B : Type} [Field α] [LinearOrder α]
+    [IsStrictOrderedRing α] (ops : Ops α B) (env : Env α) (v : VehicleS α B)
+    (ts : List (TS α)) (sorted : List (α × Nat)) (fuel : Nat) (st : VSt α B) (c0 : α) (s0 : Nat)
+    (hs : sorted[st.sortedIdx]? = some (c0, s0))
+    (hin : (samePrice env sorted st.sortedIdx c0 s0).1.contains 0 = true)
+    (hnot : ¬ desiredAt env v c0 ≤ ops.soc st.sim)
+    (pw1 : List α) (sm1 : B)
+    (h1 : naivePass ops st.cs v.minChargingPower ts (samePrice env sorted st.sortedIdx c0 s0).1
+      st.power st.sim = .ok (pw1, sm1))
+    (p0 : α) (rest : List α) (sm2 : B)
+    (h2 : (if desiredAt env v c0 ≤ ops.soc sm1 then
+        bisect ops env.eps st.cs v.minChargingPower ts (samePrice env sorted st.sortedIdx c0 s0).1
+          (ops.soc st.sim) (desiredAt env v c0) bisectFuel 0 st.cs.maxPower false pw1 sm1
+      else pure (pw1, sm1)) = .ok (p0 :: rest, sm2))
+    (hp0 : p0 ≠ 0) (bat' : B) (avg : α)
+    (hl : ops.load st.bat none none (some p0) = .ok (bat', avg)) :
+    chargeLoop ops env v ts sorted (fuel + 1) st =
+      .ok ({ st with sortedIdx := (samePrice env sorted st.sortedIdx c0 s0).2, power := p0 :: rest,
+                     sim := sm2, bat := bat' }.book avg) :=
+  chargeLoop_present_in_group ops env v ts sorted fuel st c0 s0 hs hin hnot pw1 sm1 h1 p0 rest sm2 h2
+    hp0 bat' avg hl
+
+/-- **Regression for BM1 (was: witness of the defect).** Price −0.05 now, −0.10 in the next step, 0.50
+afterwards, threshold 0; the vehicle (SoC 0.1, desired 0.8, 5 kW, 10 kWh) leaves after two steps and
+needs both of them.  The price group is `[1, 0]`, headed by the next, cheaper step.  The pinned code
+charged nothing now (commands `[]`, SoC 0.1: the desired SoC could no longer be reached); the repaired
+model charges `9437087/2097152 ≈ 4.5` kW now (SoC 0.55), and the same again in the next step. -/
 example :
     (BalancedMarket.step toyOps
       ⟨1/100000, 0, 0, hourUs, 4 * hourUs, 0,
        [.signal hourUs "GC" none (some (some (.fixed (-1/10)))),
         .signal (2 * hourUs) "GC" none (some (some (.fixed (1/2))))], []⟩
       ⟨[⟨"GC", 20, some (.fixed (-1/20)), [("load", 4)]⟩], [toyCs], [toyVeh false (1/10)], []⟩).toOption.map
-      (fun r => (r.2, r.1.vehicles.map (·.bat))) = some ([], [1/10]) := by decide +kernel
+      (fun r => (r.2, r.1.vehicles.map (·.bat))) =
+      some ([("CS1", 9437087/2097152)], [11534239/20971520]) := by decide +kernel
 
 end SpiceEv
